@@ -13,7 +13,7 @@
 From Coq Require Import ZArith Bool List Permutation Lia.
 From V Require Import Base.GoInt gen.Fetcher Scanner.FetchLib Scanner.FetchModel Scanner.FetchArith
   Scanner.FetchWorker Scanner.FetchProofs Scanner.FetchBytes Scanner.ScanProofs Scanner.FetchTheorems
-  Findings.C16Prefix.
+  Scanner.ConsumeModel Scanner.ConsumeProofs Findings.C16Prefix.
 Import ListNotations.
 Open Scope Z_scope.
 
@@ -156,6 +156,30 @@ Theorem callback_once_per_selected_entry :
 Proof. exact (@scan_lemma). Qed.
 Print Assumptions callback_once_per_selected_entry.
 
+(* the consumers that turn the callback into "delivered" (migrillian Controller.Run / fetchTail,
+   Scanner/ConsumeModel.v; tied to the code by replay of whole runs, pass by pass): whatever the
+   passes were - store failures, cancellations, restarts, a destination that integrates late -
+   every index of the range the controller has reported as transferred, and in continuous mode
+   every index below the position it carries on from, was held by the destination beforehand or
+   was stored by one of the passes: no success, and no carrying on, past a gap *)
+Theorem consumer_reports_no_gap : forall c dest0 ps st,
+  mig_run c (mig_init dest0) ps = Some st ->
+  forall i, (fst (s_claim st) <= i < snd (s_claim st) \/ (m_cont c = true /\ 0 <= i < s_begin st)) ->
+  0 <= i < dest0 \/ exists p, In p ps /\ In i (p_stored p).
+Proof. exact consumer_no_gap_lemma. Qed.
+Print Assumptions consumer_reports_no_gap.
+
+(* a pass that had something to fetch and met a consumer-side failure (a store that is not
+   retried, a nil reply, an entry that does not convert) or the caller's cancellation claims
+   nothing and is never a success; if the controller goes on at all (RunWhenMaster restarts)
+   it starts again from the destination's tree size *)
+Theorem consumer_failure_is_reported : forall c st p st' n,
+  mig_pass c st p = Some st' -> p_root p = true -> p_sth p = Some n -> n > s_begin st ->
+  p_fault p || p_cancel p = true ->
+  s_claim st' = s_claim st /\ s_ret st' <> Some true /\ (s_ret st' = None -> s_begin st' = 0).
+Proof. exact failure_is_reported_lemma. Qed.
+Print Assumptions consumer_failure_is_reported.
+
 (* the code before the fixes violates the property (witnesses in Findings/C16Prefix.v) *)
 Theorem continuous_start_beyond_tree_original_code_refuted :
   exists (cfg : config) (end0 : Z) (tr : list (label Z)) (s : state Z),
@@ -199,4 +223,17 @@ Example continuous_start_beyond_tree_now :
     (run (cfg1 the_code) (init (cfg1 the_code) 50)
          [LAccept 70; LAccept 120; LTake 0; LResp 0 (ROk (zseq 100 10)); LCallback 0])
   = Some (zseq 100 10).
+Proof. vm_compute. reflexivity. Qed.
+
+(* a continuous migration: a store failure in the first pass (3 is never stored), the restart
+   fetches from the destination's size again, then the log grows *)
+Example consumer_hypotheses_satisfiable :
+  let c := {| m_start := 0; m_end := 0; m_cont := true; m_restarts := true |} in
+  option_map (fun st => (s_begin st, s_claim st, s_ret st))
+    (mig_run c (mig_init 0)
+       [MkPass 0 true (Some 6) [(0, 1); (2, 3); (4, 5)] [0; 1; 4; 5] true false;
+        MkPass 2 true (Some 6) [(2, 3); (4, 5)] [2; 3; 4; 5] false false;
+        MkPass 6 true (Some 9) [(6, 7); (8, 8)] [6; 7; 8] false false;
+        MkPass 9 false None [] [] false true])
+  = Some (9, (0, 9), Some false).
 Proof. vm_compute. reflexivity. Qed.
